@@ -87,7 +87,9 @@ def scenario_specs(tier, rng):
             if p != "cisco_iosxr":
                 specs.append(dict(kind="escalate", stack=stack, platform=p, variant="wrong", timeout_on_stall=True))
             specs.append(dict(kind="escalate", stack=stack, platform=p, variant="nopass"))
+            specs.append(dict(kind="escalate", stack=stack, platform=p, variant="denied"))
         specs.append(dict(kind="interactive_early", stack=stack))
+        specs.append(dict(kind="interactive_early", stack=stack, variant="denied"))
         specs.append(dict(kind="escalate", stack=stack, platform="cisco_nxos", variant="wrong"))
         specs.append(dict(kind="escalate", stack=stack, platform="cisco_iosxe", variant="priverr"))
         specs.append(dict(kind="interactive", stack=stack))
